@@ -141,18 +141,42 @@ package rpc
 //@   partial bounds nilmap typeassert
 //@   requires c != nil
 
-// Table bookkeeping whose index safety rests on connection-wide invariants (embargo table and
-// embargo id generator grow in step; the import table exists) that are not stated here: ASSUMED
-// not to panic, so that their callers can be swept.
-//@ func Conn.embargo -> id, cl
-//@   trusted
-//@   requires c != nil
-//@   modifies *
+// Table bookkeeping.  PARTIAL contracts (index safety, nil-map writes, the postconditions below);
+// the connection-wide invariants they rest on are ASSUMED as preconditions: the embargo table and
+// the embargo id generator grow in step, the import table exists.  Code outside the package
+// (capnp.NewClient, NewPromisedClient, WeakClient.AddRef) cannot reach these tables.
+//@ option callbackframe:Conn.embargoes callbackframe:Conn.embargoID callbackframe:Conn.imports callbackframe:impent callbackframe:embargo
 
-//@ func Conn.addImport -> cl
-//@   trusted
-//@   requires c != nil
+// embargo: the new embargo is stored under the id it returns, inside the table; table and id
+// generator stay in step.
+//@ func Conn.embargo -> id, cl
+//@   props C08
+//@   partial bounds post
+//@   requires c != nil && genOK(&c.embargoID) && M(len(c.embargoes)) == M(c.embargoID.i) && c.embargoID.i < 1<<32-1
 //@   modifies *
+//@   ensures instep: genOK(&c.embargoID) && M(len(c.embargoes)) == M(c.embargoID.i)
+//@   ensures stored: M(id) < M(len(c.embargoes)) && c.embargoes[int(id)] != nil
+
+// addImport (C07): every appearance of an import id in a received descriptor is counted exactly
+// once - the entry for the id exists afterwards and its count is one more than before (zero for an
+// id that had no entry).
+//@ func Conn.addImport -> cl
+//@   props C07 C08
+//@   partial nilmap post
+//@   requires c != nil && c.imports != nil
+//@   requires room: c.imports[id] == nil || c.imports[id].wireRefs < 1<<62
+//@   modifies *
+//@   ensures counted: c.imports[id] != nil && c.imports[id].wireRefs == atOldInt(func() int { return importRefs(c, id) })+1
+
+//@ spec
+//@ func atOldInt(f func() int) int { panic("spec") }
+//@ func importRefs(c *Conn, id importID) int {
+//@ 	if c.imports[id] == nil {
+//@ 		return 0
+//@ 	}
+//@ 	return c.imports[id].wireRefs
+//@ }
+//@ end
 
 // ---------------------------------------------------------------- the remaining functions of the package that lock
 
